@@ -245,3 +245,37 @@ def run(ctx, F):
     want_r = {("arg1.immix_space", "Full"), ("arg1.immix_space", "FinalMark"), ("arg1.common", "Full"), ("arg1.common", "FinalMark")}
     ctx.judge(pa == want_p, "C12.pause-table", "prepare: Full and InitialMark prepare both the Immix space and the common spaces", expected=str(sorted(want_p)), found=str(sorted(pa)), where=where(prep), key="C12.pause-table|prepare")
     ctx.judge(ra == want_r, "C12.pause-table", "release: Full and FinalMark release both the Immix space and the common spaces", expected=str(sorted(want_r)), found=str(sorted(ra)), where=where(rel), key="C12.pause-table|release")
+    _barrier_armed_all_spaces(ctx, F)
+
+
+def _barrier_armed_all_spaces(ctx, F):
+    """C12.barrier-armed-all-spaces: the SATB barrier logs an object only if its unlog bit is set; at the initial mark pause the bits
+    are set in bulk. The bulk operation on the common/base spaces must reach every space field of CommonPlan / BasePlan."""
+    from . import plans
+    for adt in ("plan::global::CommonPlan", "plan::global::BasePlan"):
+        a = F.adts.get(adt)
+        if not a:
+            raise AnalysisError("C12: %s not found" % adt)
+        spaces = {p[0] for p in plans.space_paths(F, adt) if len(p) == 1}
+        sub = {fld["name"] for fld in a["variants"][0]["fields"] if re.match(r"^plan::global::BasePlan<", fld["ty"])}
+        for meth in ("set_side_log_bits", "clear_side_log_bits"):
+            g = F.fn("%s::%s" % (adt, meth))
+            got = set()
+            for c in live_calls(g):
+                if c.name == meth and c.args and g.cfg.must_pass([c.bb]):
+                    m = re.match(r"^arg1\.(\w+)$", show(strip(g.flow.arg_tree(c, 0))))
+                    if m:
+                        got.add(m.group(1))
+            want = spaces | sub
+            ctx.judge(want <= got, "C12.barrier-armed-all-spaces", "%s::%s reaches every space of the struct" % (last_seg(adt), meth), expected=str(sorted(want)), found="missing %s" % sorted(want - got), where=where(g),
+                      key="C12.barrier-armed-all-spaces|%s|%s" % (last_seg(adt), meth))
+    sched = F.fn("plan::global::CommonPlan::schedule_unlog_bits_op")
+    pk = {"SetCommonPlanUnlogBits": "set_side_log_bits", "ClearCommonPlanUnlogBits": "clear_side_log_bits"}
+    for ty, meth in pk.items():
+        dw = [g for q, g in F.fns.items() if q.endswith("%s as scheduler::work::GCWork>::do_work" % ty)]
+        ok = len(dw) == 1 and any(c.name == meth and c.q and "CommonPlan" in c.q for c in live_calls(dw[0]))
+        ctx.judge(ok, "C12.barrier-armed-all-spaces", "%s runs CommonPlan::%s" % (ty, meth), expected="common_plan.%s()" % meth, found=str(len(dw)), key="C12.barrier-armed-all-spaces|packet|" + ty)
+    ci = F.fn("<plan::concurrent::immix::global::ConcurrentImmix as plan::global::Plan>::prepare")
+    cs = [c for c in live_calls(ci) if c.name == "schedule_unlog_bits_op"]
+    ctx.judge(any("BulkSet" in show(strip(ci.flow.arg_tree(c, 1))) for c in cs), "C12.barrier-armed-all-spaces", "ConcurrentImmix arms the common spaces at the initial mark", expected="common.schedule_unlog_bits_op(BulkSet) in prepare",
+              found=str([show(strip(ci.flow.arg_tree(c, 1)))[:40] for c in cs]), where=where(ci), key="C12.barrier-armed-all-spaces|initial-mark")
